@@ -22,6 +22,73 @@ Lemma Forall2_imp {A B} (R1 R2 : A -> B -> Prop) l1 l2 :
   (forall a b, R1 a b -> R2 a b) -> Forall2 R1 l1 l2 -> Forall2 R2 l1 l2.
 Proof. intros H F. induction F; constructor; [apply H; assumption|assumption]. Qed.
 
+(** ---- the static statement's view of the coefficient table (fact sf_stat) ----------------- *)
+Lemma with_stoich_eta m : with_stoich m (m_stoich m) = m.
+Proof. destruct m; reflexivity. Qed.
+
+Lemma stat_view_float F m : sf_stat F = StatFloatTimesRate -> stat_view F m = Some m.
+Proof. intros H. unfold stat_view. rewrite H. reflexivity. Qed.
+
+(** Fraction.limit_denominator returns a fraction with a small denominator unchanged *)
+Lemma limit_den_small x : (Z.pos (Qden (Qred x)) <= max_den)%Z -> limit_den x = Some x.
+Proof. intros H. unfold limit_den. apply Z.leb_le in H. rewrite H. reflexivity. Qed.
+
+Lemma limit_row_id st : (forall r n, In (r, n) st -> limit_den n = Some n) -> limit_row st = Some st.
+Proof.
+  induction st as [|[r n] st IH]; intros H; cbn [limit_row]; [reflexivity|].
+  rewrite (H r n (or_introl eq_refl)), IH; [reflexivity|]. intros r' n' Hin. apply (H r' n'). right. exact Hin.
+Qed.
+
+Lemma limit_tbl_id tbl :
+  (forall cpd row r n, In (cpd, row) tbl -> In (r, n) row -> limit_den n = Some n) -> limit_tbl tbl = Some tbl.
+Proof.
+  induction tbl as [|[cpd st] tbl IH]; intros H; cbn [limit_tbl]; [reflexivity|].
+  rewrite limit_row_id, IH; [reflexivity| |].
+  - intros c row r n H1 H2. apply (H c row r n); [right; exact H1|exact H2].
+  - intros r n Hin. apply (H cpd st r n); [left; reflexivity|exact Hin].
+Qed.
+
+(** the rational statement sees the model itself when every coefficient survives limit_denominator *)
+Lemma stat_view_rational_exact F m :
+  sf_stat F = StatRationalLimited ->
+  (forall cpd row r n, In (cpd, row) (m_stoich m) -> In (r, n) row -> limit_den n = Some n) ->
+  stat_view F m = Some m.
+Proof.
+  intros HF H. unfold stat_view. rewrite HF, (limit_tbl_id _ H). cbn [option_map]. rewrite with_stoich_eta. reflexivity.
+Qed.
+
+Lemma limit_row_keys st : forall st', limit_row st = Some st' -> forall r n, In (r, n) st -> exists n', In (r, n') st'.
+Proof.
+  induction st as [|[r0 n0] st IH]; intros st' H r n Hin; [destruct Hin|]. cbn [limit_row] in H.
+  destruct (limit_den n0) as [n0'|]; [|discriminate]. destruct (limit_row st) as [l|]; [|discriminate].
+  injection H as H. subst st'. destruct Hin as [E|Hin].
+  - injection E as E1 E2. subst. exists n0'. left. reflexivity.
+  - destruct (IH l eq_refl r n Hin) as [n' Hn']. exists n'. right. exact Hn'.
+Qed.
+
+Lemma limit_tbl_keys tbl : forall tbl', limit_tbl tbl = Some tbl' ->
+  forall cpd row r n, In (cpd, row) tbl -> In (r, n) row -> exists row' n', In (cpd, row') tbl' /\ In (r, n') row'.
+Proof.
+  induction tbl as [|[c0 st0] tbl IH]; intros tbl' H cpd row r n Hin Hr; [destruct Hin|]. cbn [limit_tbl] in H.
+  destruct (limit_row st0) as [st0'|] eqn:E0; [|discriminate]. destruct (limit_tbl tbl) as [l|]; [|discriminate].
+  injection H as H. subst tbl'. destruct Hin as [E|Hin].
+  - injection E as E1 E2. subst. destruct (limit_row_keys _ _ E0 r n Hr) as [n' Hn']. exists st0', n'. split; [left; reflexivity|exact Hn'].
+  - destruct (IH l eq_refl cpd row r n Hin Hr) as (row' & n' & H1 & H2). exists row', n'. split; [right; exact H1|exact H2].
+Qed.
+
+(** whatever the fact: the static loop sees the model with SOME table that has the same keys *)
+Lemma stat_view_shape F m m' : stat_view F m = Some m' ->
+  exists tbl, m' = with_stoich m tbl /\
+    forall cpd row r n, In (cpd, row) (m_stoich m) -> In (r, n) row -> exists row' n', In (cpd, row') tbl /\ In (r, n') row'.
+Proof.
+  unfold stat_view. destruct (sf_stat F); intros H.
+  - injection H as H. subst m'. exists (m_stoich m). split; [symmetry; apply with_stoich_eta|].
+    intros cpd row r n H1 H2. exists row, n. split; assumption.
+  - destruct (limit_tbl (m_stoich m)) as [tbl|] eqn:E; [|discriminate]. injection H as H. subst m'.
+    exists tbl. split; [reflexivity|]. exact (limit_tbl_keys _ _ E).
+  - discriminate.
+Qed.
+
 (** ---- association lists ----------------------------------------------------------------- *)
 Lemma lookup_In {A} k (l : list (name * A)) v : lookup k l = Some v -> In (k, v) l.
 Proof.
@@ -91,6 +158,46 @@ Proof.
   - exact Hin.
   - eapply pick_in_order_In. exact Hin.
 Qed.
+
+(** ---- to_symbolic = to_symbolic_on at the static statement's view --------------------------- *)
+Lemma to_symbolic_on_with fsym names F m tbl :
+  to_symbolic_on fsym names F (with_stoich m tbl) =
+    match der_sequence F m with
+    | None => SymErr ErrUnmodelled
+    | Some ds =>
+    match insert_derived fsym ds (sym_entries names) with
+    | inl e => SymErr e
+    | inr tab =>
+    match conv_rxns fsym tab (m_rxn m) with
+    | inl e => SymErr e
+    | inr rxns =>
+    match stat_loop rxns tbl [] with
+    | inl e => SymErr e
+    | inr eqs0 =>
+    match dyn_part fsym F tab rxns (m_dyn m) eqs0 with
+    | inl e => SymErr e
+    | inr eqs =>
+    match lookup_all eqs (m_vars m) with
+    | None => SymErr ErrKey
+    | Some l => SymOk l
+    end end end end end end.
+Proof. reflexivity. Qed.
+
+Lemma to_symbolic_inv fsym F m eqs : to_symbolic fsym F m = SymOk eqs ->
+  exists names tbl, table_names F m = Some names /\ stat_view F m = Some (with_stoich m tbl) /\
+    (forall cpd row r n, In (cpd, row) (m_stoich m) -> In (r, n) row -> exists row' n', In (cpd, row') tbl /\ In (r, n') row') /\
+    to_symbolic_on fsym names F (with_stoich m tbl) = SymOk eqs.
+Proof.
+  intros H. unfold to_symbolic in H. destruct (table_names F m) as [names|]; [|discriminate].
+  destruct (stat_view F m) as [m'|] eqn:Ev; [|discriminate].
+  destruct (stat_view_shape F m m' Ev) as (tbl & -> & Hk). exists names, tbl.
+  split; [reflexivity|]. split; [reflexivity|]. split; [exact Hk|exact H].
+Qed.
+
+(** under the exact view (shipped fact, or every coefficient survives) to_symbolic IS to_symbolic_on *)
+Lemma to_symbolic_exact fsym F m names : table_names F m = Some names -> stat_view F m = Some m ->
+  to_symbolic fsym F m = to_symbolic_on fsym names F m.
+Proof. intros H1 H2. unfold to_symbolic. rewrite H1, H2. reflexivity. Qed.
 
 (** ======================================================================================== *)
 (** soundness *)
@@ -273,12 +380,13 @@ Section Sound.
 
   (** ... whatever the symbol table is made of (every value of the fact sf_symtab) *)
   Theorem to_symbolic_sound F m eqs :
+    stat_view F m = Some m ->          (* the static statement multiplies by the coefficient itself *)
     Resolved fsem m env ->
     to_symbolic fsym F m = SymOk eqs ->
     Forall2 (fun e v => eval env e == num_rhs fsem m env v) eqs (m_vars m).
   Proof.
-    intros HR H. unfold to_symbolic in H. destruct (table_names F m) as [names|]; [|discriminate].
-    exact (to_symbolic_on_sound names F m eqs HR H).
+    intros HS HR H. unfold to_symbolic in H. destruct (table_names F m) as [names|]; [|discriminate].
+    rewrite HS in H. exact (to_symbolic_on_sound names F m eqs HR H).
   Qed.
 
   (** pre-fix fact DynListTimesRate: a state-dependent computed coefficient is refused (modelled
@@ -287,12 +395,12 @@ Section Sound.
     sf_dyn F = DynListTimesRate ->
     In (cpd, row) (m_dyn m) -> row <> [] -> forall eqs, to_symbolic fsym F m <> SymOk eqs.
   Proof.
-    intros HF Hin Hne eqs H. unfold to_symbolic in H.
-    destruct (table_names F m) as [names|]; [|discriminate]. unfold to_symbolic_on in H.
+    intros HF Hin Hne eqs H. apply to_symbolic_inv in H. destruct H as (names & tbl & _ & _ & _ & H).
+    rewrite to_symbolic_on_with in H.
     destruct (der_sequence F m) as [ds|]; [|discriminate].
     destruct (insert_derived fsym ds (sym_entries names)) as [x|tab]; [discriminate|].
     destruct (conv_rxns fsym tab (m_rxn m)) as [x|rxns]; [discriminate|].
-    destruct (stat_loop rxns (m_stoich m) []) as [x|eqs0]; [discriminate|].
+    destruct (stat_loop rxns tbl []) as [x|eqs0]; [discriminate|].
     unfold dyn_part in H. rewrite HF in H.
     destruct (dyn_loop tab rxns (m_dyn m)) as [x|] eqn:Edy; [discriminate|].
     apply Hne. eapply dyn_loop_none; eassumption.
@@ -391,6 +499,7 @@ Section Sound.
   Qed.
 
   Theorem every_parameter_setting_partial F m raw eqs :
+    stat_view F m = Some m ->
     m_stoich m = fst (build_tables fsem parnames env0 raw) ->
     m_dyn m = snd (build_tables fsem parnames env0 raw) ->
     (forall rxn sto cpd f, In (rxn, sto) raw -> In (cpd, f) sto -> CoefStable f) ->
@@ -398,8 +507,8 @@ Section Sound.
     to_symbolic fsym F m = SymOk eqs ->
     Forall2 (fun e v => eval env e == raw_rhs fsem env raw v) eqs (m_vars m).
   Proof.
-    intros H1 H2 Hs Hres H.
-    pose proof (to_symbolic_sound F m eqs Hres H) as Hsound.
+    intros HS H1 H2 Hs Hres H.
+    pose proof (to_symbolic_sound F m eqs HS Hres H) as Hsound.
     eapply Forall2_imp; [|exact Hsound]. cbn beta. intros e v He.
     rewrite He. rewrite <- (tables_rhs raw v Hs). unfold num_rhs, tables_sum. rewrite H1, H2. reflexivity.
   Qed.
@@ -538,8 +647,8 @@ Theorem to_symbolic_syms_table fsym
   to_symbolic fsym F m = SymOk eqs ->
   exists names, table_names F m = Some names /\ forall e, In e eqs -> incl (syms e) names.
 Proof.
-  intros H. unfold to_symbolic in H. destruct (table_names F m) as [names|] eqn:E; [|discriminate].
-  exists names. split; [reflexivity|]. exact (to_symbolic_on_syms fsym fsym_syms names F m eqs H).
+  intros H. apply to_symbolic_inv in H. destruct H as (names & tbl & En & _ & _ & H).
+  exists names. split; [exact En|]. exact (to_symbolic_on_syms fsym fsym_syms names F (with_stoich m tbl) eqs H).
 Qed.
 
 Theorem to_symbolic_syms fsym
@@ -548,18 +657,19 @@ Theorem to_symbolic_syms fsym
   sf_symtab F = SymVarsParsData ->
   to_symbolic fsym F m = SymOk eqs -> forall e, In e eqs -> incl (syms e) (base_names m).
 Proof.
-  intros HF H. unfold to_symbolic, table_names in H. rewrite HF in H.
-  exact (to_symbolic_on_syms fsym fsym_syms (base_names m) F m eqs H).
+  intros HF H. apply to_symbolic_inv in H. destruct H as (names & tbl & En & _ & _ & H).
+  unfold table_names in En. rewrite HF in En. injection En as En. subst names.
+  exact (to_symbolic_on_syms fsym fsym_syms (base_names m) F (with_stoich m tbl) eqs H).
 Qed.
 
 Lemma to_symbolic_length fsym F m eqs : to_symbolic fsym F m = SymOk eqs -> length eqs = length (m_vars m).
 Proof.
-  intros H. unfold to_symbolic in H. destruct (table_names F m) as [names|]; [|discriminate].
-  unfold to_symbolic_on in H.
+  intros H. apply to_symbolic_inv in H. destruct H as (names & tbl & _ & _ & _ & H).
+  rewrite to_symbolic_on_with in H.
   destruct (der_sequence F m) as [ds|]; [|discriminate].
   destruct (insert_derived fsym ds (sym_entries names)) as [x|tab]; [discriminate|].
   destruct (conv_rxns fsym tab (m_rxn m)) as [x|rxns]; [discriminate|].
-  destruct (stat_loop rxns (m_stoich m) []) as [x|eqs0]; [discriminate|].
+  destruct (stat_loop rxns tbl []) as [x|eqs0]; [discriminate|].
   destruct (dyn_part fsym F tab rxns (m_dyn m) eqs0) as [x|eqs1]; [discriminate|].
   destruct (lookup_all eqs1 (m_vars m)) as [l|] eqn:El; [|discriminate].
   injection H as H. subst l. apply lookup_all_Forall2 in El.
@@ -757,8 +867,10 @@ Section Success.
 
   Theorem convertible_converts F :
     sf_order F = OrdDependency -> sf_symtab F = SymVarsParsData -> sf_dyn F = DynCoefTimesRate ->
+    sf_stat F = StatFloatTimesRate ->
     exists eqs, to_symbolic fsym F m = SymOk eqs.
   Proof.
-    intros HF HFt HFd. unfold to_symbolic, table_names. rewrite HFt. exact (convertible_converts_on F HF HFd).
+    intros HF HFt HFd HFs. unfold to_symbolic, table_names. rewrite HFt, (stat_view_float F m HFs).
+    exact (convertible_converts_on F HF HFd).
   Qed.
 End Success.
